@@ -2,6 +2,7 @@ package props
 
 import (
 	"encoding/json"
+	"fmt"
 	"strings"
 	"testing"
 
@@ -184,3 +185,56 @@ var propC11 = &h.Prop[C11Case]{ID: "C11", Rule: ruleC11, Gen: genC11, Check: che
 
 func TestC11(t *testing.T)       { propC11.Search(t) }
 func TestC11Replay(t *testing.T) { propC11.Replay(t) }
+
+// TestC11Grid: one value of 2^16+5 words (1.245 million digits; its text exceeds 1 MiB) printed and parsed
+// back, on every run; in the thorough tier also 2^17+1 words and the f and p formats. Sizes at which a conversion
+// that works in blocks, in parallel, or with a length limit would first behave differently.
+func TestC11Grid(t *testing.T) {
+	defer h.WriteStats("C11")
+	type g struct {
+		words int
+		fmt   string
+	}
+	cases := []g{{1<<16 + 5, "e"}}
+	if h.Thorough() {
+		cases = append(cases, g{1<<16 + 5, "f"}, g{1<<17 + 1, "p"}, g{1 << 16, "text"})
+	}
+	st := uint64(12345)
+	next := func() uint64 {
+		st += 0x9e3779b97f4a7c15
+		z := st
+		z = (z ^ (z >> 30)) * 0xbf58476d1ce4e5b9
+		z = (z ^ (z >> 27)) * 0x94d049bb133111eb
+		return z ^ (z >> 31)
+	}
+	n := 0
+	for _, gc := range cases {
+		var b strings.Builder
+		for i := 0; i < gc.words; i++ {
+			w := next() % h.Base
+			if i == 0 && w < h.Base/10 {
+				w += h.Base / 10
+			}
+			if i%97 == 3 {
+				w = 0 // interior zero words
+			}
+			fmt.Fprintf(&b, "%019d", w)
+		}
+		d := strings.TrimRight(b.String(), "0")
+		c := C11Case{X: h.Spec{F: "f", D: d, E: 17, Neg: n%2 == 1, P: uint(len(d)), M: 0}, Fmt: gc.fmt, Base: 10, RM: 2}
+		o := &h.Obs{}
+		o.Label("giant")
+		if f := propC11.SafeCheck(c, o); f != nil {
+			h.ReportGridFail(t, "C11", f, mustJSON(struct {
+				Words int
+				Fmt   string
+			}{gc.words, gc.fmt}))
+		}
+		h.RecordGrid("C11", o, struct {
+			Words int
+			Fmt   string
+		}{gc.words, gc.fmt})
+		n++
+	}
+	h.AddExtra("C11", "giant_cases_enumerated", n)
+}
